@@ -294,3 +294,24 @@ M("C04", "M23-history-desc", (TM, "            timesteps = sorted(\n            
 E("C04", "E1-else-first", (TM, "                if sec_since_timestep <= latency:\n                    self._partition_latent[timestep].append(event)\n                else:\n                    self._partition_nonlatent[timestep].append(event)", "                if sec_since_timestep > latency:\n                    self._partition_nonlatent[timestep].append(event)\n                else:\n                    self._partition_latent[timestep].append(event)"))
 E("C04", "E2-sort-in-place", (TM, "        events = sorted(e for e in self.events if e.time <= self.timesteps[-1])", "        events = sorted([e for e in self.events if e.time <= self.timesteps[-1]])"))
 E("C04", "E3-iterate-copy", (EN, "        for event in self._events_latent:\n            self.notify(event)\n        self._events_latent = list()", "        for event in list(self._events_latent):\n            self.notify(event)\n        self._events_latent = []"))
+
+# ------------------------------------------------------------------ C02
+M("C02", "M1-index-minus-one", (TM, "                timestep = self.timesteps[index]", "                timestep = self.timesteps[max(index - 1, 0)]"), "S1.slot-is-bisect-left")
+M("C02", "M2-history-unbounded", (TM, "                if origin <= t <= self._current_time\n            )\n            events_latent = list()", "                if origin <= t\n            )\n            events_latent = list()"), "S9.history-upper-bound")
+M("C02", "M3-reward-peeks", (RW, "        nlv_last_rebalancing = env.broker.track_record[-1].context_pre.nlv\n        nlv_now = env.broker.net_liquidation_value()\n        return float(np.log(nlv_now / nlv_last_rebalancing))", "        nlv_last_rebalancing = env.broker.track_record[-1].context_pre.nlv\n        nlv_now = env.broker.net_liquidation_value()\n        bonus = 0.0 * len(env._events_nonlatent or [])\n        return float(np.log(nlv_now / nlv_last_rebalancing)) + bonus"), "S3.prefetched-batch-private")
+M("C02", "M4-fit-full-frame", (EN, "            self.transformer.fit(X.loc[:transformer_end])", "            self.transformer.fit(X)"), "S6.fit-up-to-transformer-end")
+M("C02", "M5-scale-full-frame", (EN, "scale = np.log(pd.DataFrame(Y).loc[:transformer_end]).diff().std().mean().item()", "scale = np.log(pd.DataFrame(Y)).diff().std().mean().item()"), "S6.reductions-up-to-transformer-end")
+M("C02", "M6-bfill", (EN, "        X.ffill(inplace=True)\n", "        X = X.ffill().bfill()\n"), "S6.no-backward-looking-op")
+M("C02", "M7-prefetch-before-dispatch", (EN, "        for event in self._events_nonlatent:\n            self.notify(event)\n        try:\n            self._events_latent, self._events_nonlatent = self._transmitter._next()\n        except StopIteration:\n            self._done = True", "        events = self._events_nonlatent\n        try:\n            self._events_latent, self._events_nonlatent = self._transmitter._next()\n        except StopIteration:\n            self._done = True\n        for event in events:\n            self.notify(event)"), None)
+M("C02", "M8-latent-moved-out-of-step", [(EN, "        action = self._queue_actions.pop()\n        self._process_latent_events()\n", "        action = self._queue_actions.pop()\n"), (EN, "            self._events_latent, self._events_nonlatent = self._transmitter._next()\n        except StopIteration:\n            self._done = True", "            self._events_latent, self._events_nonlatent = self._transmitter._next()\n        except StopIteration:\n            self._done = True\n        else:\n            self._process_latent_events()")], "S4")
+M("C02", "M9-nonlatent-before-rebalance", (EN, "        self._process_latent_events()\n        rebalancing = self.action_space.make_rebalancing_request(action, self.now(), self.broker)", "        self._process_latent_events()\n        self._process_nonlatent_events()\n        rebalancing = self.action_space.make_rebalancing_request(action, self.now(), self.broker)"), "S4")
+M("C02", "M10-feature-reads-transmitter", (LB, "        w = [self.exchange[contract].mid_price for contract in self.contracts]", "        w = [self.exchange[contract].mid_price for contract in self.contracts]\n        _ = getattr(self, 'env', None) and self.env._transmitter._partition_nonlatent"), "S3")
+M("C02", "M11-direct-callback", (EN, "        for event in self._events_latent:\n            self.notify(event)", "        for event in self._events_latent:\n            self.exchange.process_EventNBBO(event) if hasattr(event, 'bid_price') else self.notify(event)"), "S5.callbacks-only-via-notify")
+M("C02", "M12-transform-beyond-end", (EN, "        X = self.transformer.transform(X.loc[:end])", "        X = self.transformer.transform(X)"), "S6.transform-up-to-end")
+M("C02", "M13-negative-shift", (EN, "        X.fillna(0., inplace=True)\n", "        X.fillna(0., inplace=True)\n        X = X.shift(-1).fillna(0.)\n"), "S6.no-backward-looking-op")
+M("C02", "M14-queue-prepend", (ST, "        self.queue.append([event.to_list()])\n        self.last_event = event", "        self.queue.appendleft([event.to_list()])\n        self.last_event = event"), "S7")
+M("C02", "M15-transformer-end-ignored", (EN, "        transformer_end = transformer_end or end\n", "        transformer_end = end\n"), "S6.transformer-end-default")
+M("C02", "M16-truncated-latency", (TM, "                sec_since_timestep = (event.time - timestep_previous).total_seconds()", "                elapsed = event.time - timestep_previous\n                sec_since_timestep = elapsed.days * 86400 + elapsed.seconds"), "S5")
+M("C02", "M17-reward-before-events-state-after", (EN, "        self._process_nonlatent_events()\n        reward = self._reward.calculate(self)\n", "        reward = self._reward.calculate(self)\n        self._process_nonlatent_events()\n"), "S4")
+E("C02", "E1-searchsorted", [(TM, "                index = bisect.bisect_left(self.timesteps, event.time)", "                index = np.searchsorted(self.timesteps, event.time)")])
+E("C02", "E2-scale-local", (EN, "            scale = np.log(pd.DataFrame(Y).loc[:transformer_end]).diff().std().mean().item()", "            Y_fit = pd.DataFrame(Y).loc[:transformer_end]\n            scale = np.log(Y_fit).diff().std().mean().item()"))
